@@ -85,6 +85,8 @@ int vf_next_index (int kind) { return (kind_count[kind]++); }
 /* layout of the counter (private to counter.c; replicated here, checked by the build script) */
 struct vf_counter_layout { nsync_atomic_uint32_ waited; nsync_mu counter_mu; nsync_atomic_uint32_ value; struct nsync_dll_element_s_ *waiters; };
 struct vf_oncesync_layout { nsync_mu once_mu; nsync_cv once_cv; };
+/* value of a counter read without a scheduling point or a log line (oracles only) */
+uint32_t vf_counter_peek (const void *c) { return (*(volatile uint32_t *) &((struct vf_counter_layout *) c)->value); }
 
 static struct obj *find_obj (const void *p) {
 	int i;
